@@ -15,7 +15,7 @@ use vm_memory::bitmap::{AtomicBitmap, Bitmap};
 use vm_memory::verif::shim::{set_atomic_hook, AtomicHook};
 
 pub const NOT_SCHEDULED: usize = usize::MAX;
-const PROBE: usize = usize::MAX - 1;
+pub const PROBE: usize = usize::MAX - 1;
 
 thread_local! {
     pub static TID: Cell<usize> = const { Cell::new(NOT_SCHEDULED) };
@@ -31,6 +31,12 @@ pub struct St {
     pub pending_begin: Vec<Option<Value>>,
     pub probe_addr: usize,
     pub base: usize,
+    /// mark-order exploration (C05): primitive copies are scheduling points too
+    pub copy_points: bool,
+    /// a thread that logged a copy keeps the baton until its next scheduling point (the access follows the report)
+    pub holding: Vec<bool>,
+    /// guest memory under observation: (host base, length)
+    pub mem: (usize, usize),
 }
 
 pub struct Shared {
@@ -49,6 +55,7 @@ impl AtomicHook for Shared {
             return;
         }
         let mut st = self.m.lock().unwrap();
+        release_held(&mut st, tid);
         st.parked[tid] = true;
         self.cv.notify_all();
         while st.turn != Some(tid) {
@@ -76,6 +83,47 @@ impl AtomicHook for Shared {
         st.last_idx[tid] = Some(idx);
         st.turn = None;
         self.cv.notify_all();
+    }
+    fn copy(&self, dst: usize, len: usize) {
+        let tid = TID.with(|t| t.get());
+        if tid == NOT_SCHEDULED || tid == PROBE {
+            return;
+        }
+        if !self.m.lock().unwrap().copy_points {
+            return;
+        }
+        self.pre();
+        let mut st = self.m.lock().unwrap();
+        let off = if dst >= st.mem.0 && dst < st.mem.0 + st.mem.1 { (dst - st.mem.0) as i64 } else { -1 };
+        let mut ev = json!({"t": tid + 1, "kind": "copy", "w": 0, "arg": [], "old": [], "off": off, "len": len});
+        if let Some(b) = st.pending_begin[tid].take() {
+            ev["begin"] = b;
+        }
+        st.log.push(ev);
+        let idx = st.log.len() - 1;
+        st.last_idx[tid] = Some(idx);
+        // the access itself follows this report: keep the baton until this thread's next scheduling point
+        st.holding[tid] = true;
+    }
+}
+
+impl Shared {
+    /// called by a worker when an operation has returned: a baton kept since the last copy is given back
+    pub fn op_returned(&self, tid: usize) {
+        let mut st = self.m.lock().unwrap();
+        if release_held(&mut st, tid) {
+            self.cv.notify_all();
+        }
+    }
+}
+
+fn release_held(st: &mut St, tid: usize) -> bool {
+    if st.holding.get(tid).copied().unwrap_or(false) {
+        st.holding[tid] = false;
+        st.turn = None;
+        true
+    } else {
+        false
     }
 }
 
